@@ -24,7 +24,10 @@ package astisub
 
 //@ func (s *Subtitles) Add(d time.Duration)
 //@   prop C09
-//@   requires wfItems(s) && wellTimed(s) && bounded(s) && boundedD(d)
+//@   requires [nonnil] s != nil && nonNil(s)
+//@   requires [distinct] distinct(s)
+//@   requires [welltimed] wellTimed(s)
+//@   requires [bounded] bounded(s) && boundedD(d)
 //@   ghostfun opaque O(k int) *Item = old(s.Items[k])
 //@   ghostfun opaque E0(k int) time.Duration = old(s.Items[k].EndAt)
 //@   ghostfun opaque S0(k int) time.Duration = old(s.Items[k].StartAt)
@@ -38,8 +41,14 @@ package astisub
 //@   ensures [count] len(s.Items) == cnt(old(len(s.Items)))
 //@   ensures [survivors] forall k int :: 0 <= k && k < old(len(s.Items)) && alive(k) ==> s.Items[cnt(k)] == O(k) && O(k).EndAt == E0(k) + d && O(k).StartAt == max(S0(k) + d, 0)
 //@   ensures [removed] forall k, m int :: 0 <= k && k < old(len(s.Items)) && !alive(k) && 0 <= m && m < len(s.Items) ==> s.Items[m] != O(k)
+//@   ghostout srcIdx(m int) int
+//@   ensures [sources] forall m int :: 0 <= m && m < len(s.Items) ==> 0 <= srcIdx(m) && srcIdx(m) < old(len(s.Items)) && alive(srcIdx(m)) && cnt(srcIdx(m)) == m && s.Items[m] == O(srcIdx(m))
+//@   ensures [header] arr(s.Items) == old(arr(s.Items)) && off(s.Items) == old(off(s.Items)) && cap(s.Items) == old(cap(s.Items))
+//@   witness srcIdx(m) = mapsel(src, m)
 //@   assigns s.Items, elems(s.Items), Item.StartAt, Item.EndAt
+//@   loop 1: ghost src intmap = emptymap() ; at_end alive(j) ? mapstore(src, idx, j) : src
 //@   loop 1: ghost j int = 0 ; at_end j + 1
+//@   loop 1: invariant forall m int :: {mapsel(src, m)} 0 <= m && m < idx ==> 0 <= mapsel(src, m) && mapsel(src, m) < j && alive(mapsel(src, m)) && cnt(mapsel(src, m)) == m && s.Items[m] == O(mapsel(src, m))
 //@   loop 1: invariant 0 <= idx && idx <= len(s.Items) && 0 <= j && j <= old(len(s.Items)) && len(s.Items) == old(len(s.Items)) - (j - idx) && idx == cnt(j)
 //@   loop 1: invariant arr(s.Items) == old(arr(s.Items)) && off(s.Items) == old(off(s.Items)) && cap(s.Items) == old(cap(s.Items))
 //@   loop 1: invariant forall k int :: 0 <= k && k < j && alive(k) ==> s.Items[cnt(k)] == O(k) && O(k).EndAt == E0(k) + d && O(k).StartAt == max(S0(k) + d, 0)
@@ -103,6 +112,8 @@ package astisub
 //@   ensures [perm-inv] forall k int :: {pinv(k)} 0 <= k && k < len(s.Items) ==> 0 <= pinv(k) && pinv(k) < len(s.Items) && pi(pinv(k)) == k
 //@   ensures [sorted] forall i, j int :: 0 <= i && i < j && j < len(s.Items) ==> s.Items[i].StartAt <= s.Items[j].StartAt
 //@   ensures [stable] forall i, j int :: {pi(i), pi(j)} 0 <= i && i < j && j < len(s.Items) && s.Items[i].StartAt == s.Items[j].StartAt ==> pi(i) < pi(j)
+//@   ensures [perm-abs] forall k int :: 0 <= k && k < len(s.Items) ==> 0 <= pi(k) && pi(k) < len(s.Items) && s.Items[k] == old(s.Items[pi(k)]) && pinv(pi(k)) == k
+//@   ensures [perm-inv-abs] forall k int :: 0 <= k && k < len(s.Items) ==> 0 <= pinv(k) && pinv(k) < len(s.Items) && old(s.Items[k]) == s.Items[pinv(k)] && pi(pinv(k)) == k
 //@   ensures [window] forall m int :: m < off(s.Items) || m >= off(s.Items) + len(s.Items) ==> rawelem(s.Items, m) == old(rawelem(s.Items, m))
 //@   assigns elems(s.Items)
 //@   witness return 1: pi(k) = k
@@ -213,4 +224,69 @@ package astisub
 //@   ensures [closure] forall x string :: has(s.Styles, x) && s.Styles[x].Style != nil ==> has(s.Styles, s.Styles[x].Style.ID)
 //@   ensures [support] len(s.Items) > 0 ==> forall x string :: has(s.Styles, x) ==> directStyle(s, x) || regionStyle(s, x) || (exists y string :: has(s.Styles, y) && s.Styles[y].Style != nil && s.Styles[y].Style.ID == x)
 //@   assigns entries(s.Regions), entries(s.Styles)
+//@ end
+
+// Round trip (C09, last clause): shifting by d and then by -d restores every cue
+// that was neither clamped nor removed by either shift (a cue ending at 0 survives
+// the first shift for d > 0 but is removed by the second, whose result ends at 0).
+// Lemma over the contract of Add.
+//@ harness addThenSub(s *Subtitles, d time.Duration)
+//@   prop C09
+//@   requires wfItems(s) && wellTimed(s)
+//@   requires forall k int :: 0 <= k && k < len(s.Items) ==> 0 <= s.Items[k].StartAt && s.Items[k].EndAt <= 2305843009213693952
+//@   requires 0 - 2305843009213693952 <= d && d <= 2305843009213693952
+//@   call s.Add(d)
+//@   call mark_mid
+//@   call s.Add(0 - d)
+//@   ensures [restored] forall k int :: 0 <= k && k < old(len(s.Items)) && old(s.Items[k].StartAt) + d > 0 && old(s.Items[k].EndAt) > 0 ==> old(s.Items[k]).StartAt == old(s.Items[k].StartAt) && old(s.Items[k]).EndAt == old(s.Items[k].EndAt) && (exists m int :: 0 <= m && m < len(s.Items) && s.Items[m] == old(s.Items[k]))
+//@ end
+
+// ---------------------------------------------------------------------------
+// C11  (*Subtitles).Unfragment
+// ---------------------------------------------------------------------------
+
+// Item.String() defines the "text" of a cue. Its result is abstracted to the
+// uninterpreted function txtv of the cue's Lines (header, line and run contents);
+// the body is not verified against this contract (trusted definition).
+//@ func (i Item) String() string
+//@   opt trusted definition of the abstract cue text
+//@   ensures result == txtv(i)
+//@   assigns nothing
+//@ end
+
+//@ pred opaque onScreen(s *Subtitles, t time.Duration, x string) = exists k int :: 0 <= k && k < len(s.Items) && txt(s.Items[k]) == x && s.Items[k].StartAt <= t && t < s.Items[k].EndAt
+//@ pred separatedBelow(s *Subtitles, n int) = forall a, b int :: 0 <= a && a < n && a < b && b < len(s.Items) && txt(s.Items[a]) == txt(s.Items[b]) ==> s.Items[a].EndAt < s.Items[b].StartAt
+
+//@ func (s *Subtitles) Unfragment()
+//@   prop C11
+//@   requires wfItems(s)
+//@   ghostfun opaque O(k int) *Item = old(s.Items[k])
+//@   ghostfun opaque E0(k int) time.Duration = old(s.Items[k].EndAt)
+//@   ensures [sorted] byStart(s)
+//@   ensures [separated] separatedBelow(s, len(s.Items))
+//@   ensures [origin] forall a int :: 0 <= a && a < len(s.Items) ==> exists k int :: 0 <= k && k < old(len(s.Items)) && s.Items[a] == O(k)
+//@   ensures [ends-grow] forall k int :: 0 <= k && k < old(len(s.Items)) ==> O(k).EndAt >= E0(k)
+//@   ensures [display] forall t time.Duration, x string :: onScreen(s, t, x) <==> old(onScreen(s, t, x))
+//@   ensures [wf] nonNil(s) && distinct(s)
+//@   assigns s.Items, elems(s.Items), Item.EndAt
+//@   loop 1: invariant 0 <= i && i <= len(s.Items) && 1 <= len(s.Items) && len(s.Items) <= old(len(s.Items))
+//@   loop 1: invariant arr(s.Items) == old(arr(s.Items)) && off(s.Items) == old(off(s.Items)) && cap(s.Items) == old(cap(s.Items))
+//@   loop 1: invariant nonNil(s) && distinct(s) && byStart(s)
+//@   loop 1: invariant separatedBelow(s, i)
+//@   loop 1: invariant forall a int :: 0 <= a && a < len(s.Items) ==> exists k int :: 0 <= k && k < old(len(s.Items)) && s.Items[a] == O(k)
+//@   loop 1: invariant forall k int :: 0 <= k && k < old(len(s.Items)) ==> O(k).EndAt >= E0(k)
+//@   loop 1: invariant forall t time.Duration, x string :: onScreen(s, t, x) <==> old(onScreen(s, t, x))
+//@   loop 1: invariant forall a int :: a != old(arr(s.Items)) ==> sameElems(a, *Item)
+//@   loop 1: decreases len(s.Items) - i
+//@   loop 2: ghost n0 int = len(s.Items)
+//@   loop 2: invariant 0 <= i && i < j && j <= len(s.Items) && len(s.Items) <= n0 && n0 <= old(len(s.Items))
+//@   loop 2: invariant arr(s.Items) == old(arr(s.Items)) && off(s.Items) == old(off(s.Items)) && cap(s.Items) == old(cap(s.Items))
+//@   loop 2: invariant nonNil(s) && distinct(s) && byStart(s)
+//@   loop 2: invariant separatedBelow(s, i)
+//@   loop 2: invariant forall b int :: i < b && b < j ==> txt(s.Items[b]) != txt(s.Items[i])
+//@   loop 2: invariant forall a int :: 0 <= a && a < len(s.Items) ==> exists k int :: 0 <= k && k < old(len(s.Items)) && s.Items[a] == O(k)
+//@   loop 2: invariant forall k int :: 0 <= k && k < old(len(s.Items)) ==> O(k).EndAt >= E0(k)
+//@   loop 2: invariant forall t time.Duration, x string :: onScreen(s, t, x) <==> old(onScreen(s, t, x))
+//@   loop 2: invariant forall a int :: a != old(arr(s.Items)) ==> sameElems(a, *Item)
+//@   loop 2: decreases len(s.Items) - j
 //@ end
